@@ -13,13 +13,25 @@ var hostileAlphabet = []string{"", "a", "b", "-x", "+y", " z", "-- q", "++ q", "
 	// no newline inside, but bytes that line-trimming or text-mode handling would eat
 	"b\r", "\r", "a\r\r", "\tq", "q\t", "q ", "\x00", "\xff\xfe", "\u2028", "\v", "q\f", "\u0085", "\u00a0", "a\rb"}
 
+// quotedNames: file names that are, in full or in part, quoted literals of
+// some language (the formatters write names as they are, so the readers must
+// return them as they are).
+var quotedNames = []string{"\"new notes\"", "`x`", "'a'", "\"a\\tb\"", "\"\"", "``", "''", "say \"hi\"", "\"old notes\".txt", "'\\n'", "\"\\u00e9\"",
+	"\"a", "a\"", "\"a\"b\"", "'ab'", "\"\\x41\"", "\"\\101\"", "\"a\\\\b\"", "`a\\nb`", "\"é\"", "\"a b\" ", " \"a b\""}
+
+var genQuoted = rapid.Custom(func(t *rapid.T) string {
+	q := rapid.SampledFrom([]string{"\"", "\"", "`", "'"}).Draw(t, "quote")
+	return q + rapid.StringMatching(`[a-z \\tnux0-9é]{0,6}`).Draw(t, "inner") + q
+})
+
 var genFI = rapid.Custom(func(t *rapid.T) *FI {
 	if rapid.IntRange(0, 3).Draw(t, "nofi") == 0 {
 		return nil
 	}
 	name := rapid.OneOf(rapid.StringMatching(`[a-zA-Z0-9_./ -]{1,12}`),
 		rapid.StringMatching(`[a-z%@+\\"'#:*?!~$&()é-]{1,8}`),
-		rapid.SampledFrom([]string{"100%.txt", "%s", "%d%%", "a%!b", "@@ -1 +1 @@", "--- x", "+++", "a b c", "ü/ñ.go", "\\n", "x\ty"[:1]}))
+		rapid.SampledFrom([]string{"100%.txt", "%s", "%d%%", "a%!b", "@@ -1 +1 @@", "--- x", "+++", "a b c", "ü/ñ.go", "\\n", "x\ty"[:1]}),
+		rapid.SampledFrom(quotedNames), genQuoted)
 	tm := func(label string) (int64, int, int) {
 		if rapid.IntRange(0, 3).Draw(t, label+"zero") == 0 {
 			return -1, 0, 0
@@ -53,7 +65,17 @@ func genFmtCase(t *rapid.T) FmtCase {
 			r[rapid.IntRange(0, len(r)-1).Draw(t, "longPosR")] = ll
 		}
 	}
-	return FmtCase{L: l, R: r, N: rapid.SampledFrom([]int{-1, 0, 0, 1, 1, 2, 3, 3}).Draw(t, "n"), FI: genFI.Draw(t, "fi")}
+	c := FmtCase{L: l, R: r, N: rapid.SampledFrom([]int{-1, 0, 0, 1, 1, 2, 3, 3}).Draw(t, "n"), FI: genFI.Draw(t, "fi")}
+	c.Poison = genPoison(t)
+	return c
+}
+
+// genPoison: two cases in five parse malformed text before each real parse.
+func genPoison(t *rapid.T) int {
+	if rapid.IntRange(0, 4).Draw(t, "poison?") < 3 {
+		return 0
+	}
+	return 1 + rapid.IntRange(0, poisonKinds-1).Draw(t, "poisonKind") + poisonKinds*rapid.IntRange(0, len(strays)-1).Draw(t, "stray")
 }
 
 func init() {
@@ -75,9 +97,11 @@ func TestC14Git(t *testing.T) {
 		for i := 0; i < n; i++ {
 			fc := genFmtCase(t)
 			fc.FI = nil
+			fc.Poison = 0
 			g.Files = append(g.Files, fc)
 		}
 		g.Names = rapid.SliceOfN(rapid.StringMatching(`[a-z0-9_./-]{1,10}`), 1, 4).Draw(t, "names")
+		g.Poison = genPoison(t)
 		return g
 	}, runGit)
 }
@@ -98,12 +122,18 @@ func TestC14Exhaustive(t *testing.T) {
 		slots[i] = h.Slot()
 	}
 	fi := &FI{Left: "old name", Right: "new", LSec: 1234567890, LMicro: 120000, LZone: -330, RSec: -1}
+	fiQ := &FI{Left: "\"old name\"", Right: "`new`", LSec: 1234567890, LMicro: 120000, LZone: -330, RSec: -1}
 	vk.Parallel(h, n*n, func(w, idx int) {
 		l, r := all[idx/n], all[idx%n]
-		for _, cn := range []int{-1, 0, 1, 2, 3} {
+		for ci, cn := range []int{-1, 0, 1, 2, 3} {
 			c := FmtCase{L: l, R: r, N: cn}
-			if idx%2 == 1 {
+			if idx%4 == 1 {
 				c.FI = fi
+			} else if idx%4 == 3 {
+				c.FI = fiQ
+			}
+			if (idx+ci)%3 == 0 {
+				c.Poison = 1 + (idx/3+ci*11)%(poisonKinds*len(strays))
 			}
 			o := &vk.Obs{}
 			slots[w].Enter(c)
